@@ -386,6 +386,8 @@ pub fn run<P: Property>(prop: &P, tier: Tier, seed: u64, replay: Option<PathBuf>
                         cases: per,
                         failure_persistence: None,
                         max_shrink_iters: prop.shrink_iters(),
+                        // a failure whose every re-execution runs into a watchdog must not shrink for hours
+                        max_shrink_time: 90_000,
                         max_global_rejects: 100_000,
                         ..Config::default()
                     };
